@@ -1,6 +1,6 @@
 """C09 - see DESIGN.md 5/C09 (Lifecycle.tla)."""
 from harness import core
-from checks import suite_lifecycle, suite_drolifecycle, suite_sharing
+from checks import suite_lifecycle, suite_drolifecycle, suite_sharing, suite_incremental
 
 
 def main(tier):
@@ -15,6 +15,8 @@ def main(tier):
     suite_lifecycle.run(rep, tier, props=('C09',))
     suite_drolifecycle.run(rep, tier, props=('C09',))
     suite_sharing.run(rep, tier, props=('C09',))
+    # solve / extend / solve again versus a build from scratch on the deterministic model classes and ro
+    suite_incremental.run(rep, tier, props=('C09',))
     return rep.finish()
 
 
